@@ -89,21 +89,21 @@ def sim_env(h, mp):
     return env
 
 
-def compare(spec, until=None, resume=None, max_steps=400):
+def compare(spec, until=None, resume=None, max_steps=400, listeners=()):
     """Returns dict(skipped | diff | ok, impl=…, model=…)."""
     h = runsim.SimHandle(spec)
     try:
         ms, mp = model_spec(h)
         if ms is None:
-            return {"skipped": "non-integral configuration"}
+            return {"skipped": "non-integral configuration", "rec": None}
         env = sim_env(h, mp)
     finally:
         h.close()
-    rec = runsim.run_spec(spec, until=until, resume=resume, max_steps=max_steps)
+    rec = runsim.run_spec(spec, until=until, resume=resume, max_steps=max_steps, listeners=listeners)
     if rec.get("out") is None:
-        return {"skipped": "no output"}
+        return {"skipped": "no output", "rec": rec}
     if rec["nonterminated"]:
-        return {"skipped": "nonterminated"}
+        return {"skipped": "nonterminated", "rec": rec}
     impl = impl_output(rec, mp)
     cmd = dict({"op": "simulate", "spec": ms, "max_steps": max_steps + 5}, **env)
     if until is not None:
